@@ -225,9 +225,21 @@ static void _vnacal_free_parameter(vnacal_parameter_t *vpmrp)
     }
     switch (vpmrp->vpmr_type) {
     case VNACAL_CORRELATED:
-	if (vpmrp->vpmr_sigma_frequency_vector !=
-		vpmrp->vpmr_other->vpmr_frequency_vector) {
-	    free((void *)vpmrp->vpmr_sigma_frequency_vector);
+	{
+	    /*
+	     * The sigma frequency vector may be borrowed from the vector
+	     * parameter at the end of the chain of "other" parameters.
+	     */
+	    vnacal_parameter_t *end = vpmrp->vpmr_other;
+
+	    while (end != NULL && (end->vpmr_type == VNACAL_UNKNOWN ||
+			end->vpmr_type == VNACAL_CORRELATED)) {
+		end = end->vpmr_other;
+	    }
+	    if (end == NULL || vpmrp->vpmr_sigma_frequency_vector !=
+		    end->vpmr_frequency_vector) {
+		free((void *)vpmrp->vpmr_sigma_frequency_vector);
+	    }
 	}
 	free((void *)vpmrp->vpmr_sigma_vector);
 	free((void *)vpmrp->vpmr_sigma_spline);
